@@ -94,7 +94,33 @@ def gen_stmts(c, n, depth, in_loop=False):
         ch = g.weighted([(3, "isnil"), (2, "get"), (4, "or"), (2, "getor"), (3 if names else 0, "unwrap_stmt"),
                          (3 if names else 0, "unwrap_if"), (1 if names and depth < 2 else 0, "unwrap_while"),
                          (3 if names else 0, "assign"), (2, "eq"), (3, "cmp2"), (2 if depth < 2 else 0, "block"), (2, "decl"),
-                         (2, "listopt"), (2, "objopt"), (3, "field")])
+                         (2, "listopt"), (2, "objopt"), (3, "field"), (3, "capturedor")])
+        if ch == "capturedor":
+            # the optional is a variable of an ENCLOSING scope, read inside a function literal (one or two functions deep): under
+            # `or`, `== nil`, `get` (guarded) and `?=`, while it is nil and while it is present, before and after the owner rewrites it
+            present = g.chance(50)
+            cv = "cv%d" % c.key()
+            out.append(("decl", cv, ("opt", base), (I(g.int(1, 9)) if base == "int" else S("cv")) if present else ("nil",), ()))
+            use = g.choice(["or", "or", "or-nested-fn", "isnil", "or-then-or"])
+            g.label("captured-optional:%s:%s" % (use, "present" if present else "nil"))
+            c.seen.add(("captured-or", "present" if present else "nil"))
+            fn = "cf%d" % c.key()
+            if use == "isnil":
+                body, rt = [("return", ("bin", "==", V(cv), ("nil",)))], "bool"
+            elif use == "or-then-or":
+                body, rt = [("return", ("or", V(cv), ("or", V(cv), fallback(c, base))))], base
+            else:
+                body, rt = [("return", ("or", V(cv), fallback(c, base)))], base
+            lit = ("fn", [], rt, body)
+            if use == "or-nested-fn":
+                lit = ("fn", [], rt, [("decl", "inner", None, ("fn", [], rt, body), ()), ("return", ("call", V("inner"), []))])
+            out.append(("decl", fn, None, lit, ()))
+            out.append(("print", ("call", V(fn), [])))
+            # the owner flips the variable: the closure sees the new state
+            out.append(("decl", cv, ("opt", base), ("nil",) if present else (I(g.int(1, 9)) if base == "int" else S("cw")), ()))
+            out.append(("print", ("call", V(fn), [])))
+            c.seen.add(("captured-or", "nil" if present else "present"))
+            continue
         if ch == "isnil":
             e, s = opt_expr(c, base)
             c.seen.add(("isnil", s))
